@@ -8,7 +8,7 @@
    * process-wide and lazily written state (registry, config, priority counter, regex caches, lazy cache, locale
      table): the access table regenerated from the sources (`Gozod.Gen.LockSets.table`) is race-free — any two
      accesses to one location are both reads, both atomic, ordered by one sync.Once, or inside critical sections
-     of one mutex — except for the location in `knownRacy`, with a witness.
+     of one mutex (`knownRacy` is empty since the lazy cache became an atomic.Pointer).
   Not modelled (trusted): the Go memory model, sync primitives, the scheduler; deadlock freedom and
   "result equals the run-alone result" are checked only by the -race harness.
 -/
@@ -87,10 +87,20 @@ theorem locales_unsynchronised : raceFree legacyLocales = false := by decide
 theorem locales_synchronised : raceFree (only "locales.DefaultLocales" Gen.LockSets.table) = true ∧
     (only "locales.DefaultLocales" Gen.LockSets.table).length ≥ 4 := by decide
 
-/-- **Witness**: every chaining call on a lazy schema reads the lazily resolved inner schema (`cloneState`) with no
-    synchronisation, while the first Parse writes it inside `once.Do`. -/
-theorem lazy_cache_unsynchronised :
-    raceFree (only "types.ZodLazyInternals.innerType" Gen.LockSets.table) = false := by decide
+/-- the access rows of the lazy cache before `fix: the lazy schema's cached inner schema is an atomic.Pointer` -/
+def legacyLazy : List Access := [
+  ⟨"types.ZodLazy.cloneState", "types.ZodLazyInternals.innerType", false, .none⟩,
+  ⟨"types.ZodLazy.resolveInner", "types.ZodLazyInternals.innerType", false, .once⟩,
+  ⟨"types.ZodLazy.resolveInner", "types.ZodLazyInternals.innerType", true, .once⟩]
+
+/-- **Witness** (legacy code): every chaining call on a lazy schema read the lazily resolved inner schema (`cloneState`)
+    with no synchronisation, while the first Parse wrote it inside `once.Do`. -/
+theorem lazy_cache_unsynchronised : raceFree legacyLazy = false := by decide
+
+/-- the lazy cache is now an atomic.Pointer: stored inside `once.Do`, loaded atomically by `cloneState`, `CloneFrom` and
+    `resolveInner` — every access in the regenerated table is atomic -/
+theorem lazy_cache_synchronised : raceFree (only "types.ZodLazyInternals.innerType" Gen.LockSets.table) = true ∧
+    (only "types.ZodLazyInternals.innerType" Gen.LockSets.table).length ≥ 3 := by decide
 
 /-! ### schema state: every operation class writes only what it allocated -/
 
